@@ -15,14 +15,15 @@ import (
 	"fmt"
 	"net"
 	"net/netip"
+	"net/url"
 	"sort"
-	"strconv"
 	"strings"
 	"sync"
 	"testing"
 	"time"
 
 	"github.com/daeuniverse/dae/common/consts"
+	"github.com/daeuniverse/dae/common/netutils"
 	componentdns "github.com/daeuniverse/dae/component/dns"
 	dnsmessage "github.com/miekg/dns"
 	"github.com/sirupsen/logrus"
@@ -190,12 +191,99 @@ func (f *c07Fwd) ForwardDNS(ctx context.Context, data []byte) (*dnsmessage.Msg, 
 	return m, nil
 }
 
-func c07UpOfHost(host string) string {
-	if strings.HasPrefix(host, "10.0.0.") {
-		k, _ := strconv.Atoi(strings.TrimPrefix(host, "10.0.0."))
-		return fmt.Sprintf("u%d", k-1)
+// The upstreams of the current configuration: URL text, the *Upstream the real code derives from
+// it (for cache keys) and the identity token u<k>.  Several upstreams may share scheme, address and
+// port and differ only in path or host name.
+type c07UpDef struct {
+	url string
+	up  *componentdns.Upstream
+}
+
+var c07Ups []c07UpDef
+
+// identity of a forwarder, BOUND AT CREATION (dnsForwarderFactory) from upstream.String()
+func c07Ident(upstreamString string) string {
+	for k, d := range c07Ups {
+		if d.up.String() == upstreamString {
+			return fmt.Sprintf("u%d", k)
+		}
 	}
-	return "a"
+	if strings.HasPrefix(upstreamString, "udp://9.9.9.") {
+		return "a" // the as-is resolver (the client's own destination)
+	}
+	return "?" + upstreamString
+}
+
+var c07HostIPs = map[string]string{}
+
+// upstream sets: some fully distinct, some sharing scheme + ip:port and differing only in the URL
+// path (https / h3) or only in the host name (tls / quic / udp / tcp through the bootstrap resolver).
+func c07GenUpstreams(r *VRand, nUp int, stats *VStats) []string {
+	var urls []string
+	type group struct {
+		scheme string
+		ip     string
+		n      int
+	}
+	var groups []group
+	for k := 0; k < nUp; k++ {
+		if len(groups) > 0 && r.Chance(0.55) {
+			g := &groups[r.Intn(len(groups))]
+			g.n++
+			switch g.scheme {
+			case "https", "h3":
+				if r.Bool() {
+					urls = append(urls, fmt.Sprintf("%s://%s/profile-%d", g.scheme, g.ip, k))
+					stats.Inc("upstream.shares-address.differs-in-path")
+				} else {
+					h := fmt.Sprintf("doh%d.test", k)
+					c07HostIPs[h] = g.ip
+					urls = append(urls, fmt.Sprintf("%s://%s/dns-query", g.scheme, h))
+					stats.Inc("upstream.shares-address.differs-in-hostname")
+				}
+			default:
+				h := fmt.Sprintf("res%d.test", k)
+				c07HostIPs[h] = g.ip
+				urls = append(urls, fmt.Sprintf("%s://%s", g.scheme, h))
+				stats.Inc("upstream.shares-address.differs-in-hostname")
+			}
+			continue
+		}
+		scheme := []string{"udp", "udp", "https", "https", "tls", "h3", "quic", "tcp"}[r.Intn(8)]
+		ip := fmt.Sprintf("192.0.2.%d", len(groups)+1)
+		groups = append(groups, group{scheme, ip, 1})
+		if (scheme == "https" || scheme == "h3") && r.Bool() {
+			urls = append(urls, fmt.Sprintf("%s://%s/profile-%d", scheme, ip, k))
+		} else {
+			urls = append(urls, fmt.Sprintf("%s://%s", scheme, ip))
+		}
+		stats.Inc("upstream.own-address")
+	}
+	return urls
+}
+
+func c07ResolveHost(ctx context.Context, host string, network string) (*netutils.Ip46, error, error) {
+	ip, ok := c07HostIPs[host]
+	if !ok {
+		return nil, fmt.Errorf("c07: unknown host %v", host), fmt.Errorf("c07: unknown host %v", host)
+	}
+	return &netutils.Ip46{Ip4: netip.MustParseAddr(ip)}, nil, fmt.Errorf("no AAAA")
+}
+
+func c07MakeUpDefs(urls []string) ([]c07UpDef, error) {
+	var defs []c07UpDef
+	for _, raw := range urls {
+		u, err := url.Parse(raw)
+		if err != nil {
+			return nil, err
+		}
+		up, err := componentdns.NewUpstream(context.Background(), u, "udp", c07ResolveHost)
+		if err != nil {
+			return nil, err
+		}
+		defs = append(defs, c07UpDef{raw, up})
+	}
+	return defs, nil
 }
 
 func c07ErrClass(err error) string {
@@ -226,9 +314,8 @@ func c07KeyTok(key string) string {
 	name, qt := base[:i+1], base[i+1:]
 	sc := "?" + scope
 	switch {
-	case strings.HasPrefix(scope, "upstream@udp://10.0.0."):
-		h := strings.TrimSuffix(strings.TrimPrefix(scope, "upstream@udp://"), ":53")
-		sc = c07UpOfHost(h)
+	case strings.HasPrefix(scope, "upstream@"):
+		sc = c07Ident(strings.TrimPrefix(scope, "upstream@"))
 	case strings.HasPrefix(scope, "asis@9.9.9."):
 		sc = "a" + strings.TrimSuffix(strings.TrimPrefix(scope, "asis@9.9.9."), ":53")
 	}
@@ -257,7 +344,11 @@ func c07NewController(t *testing.T, routing *componentdns.Dns) *DnsController {
 			return &DnsCache{Answer: answers, NS: ns, Extra: extra, Deadline: deadline, OriginalDeadline: originalDeadline}, nil
 		},
 		BestDialerChooser: func(ctx context.Context, req *udpRequest, upstream *componentdns.Upstream) (*dialArgument, error) {
-			return &dialArgument{l4proto: consts.L4ProtoStr_UDP, ipversion: consts.IpVersionStr_4, bestTarget: netip.AddrPortFrom(netip.MustParseAddr(upstream.Hostname), upstream.Port)}, nil
+			ip := upstream.Ip4
+			if !ip.IsValid() {
+				ip = upstream.Ip6
+			}
+			return &dialArgument{l4proto: consts.L4ProtoStr_UDP, ipversion: consts.IpVersionStr_4, bestTarget: netip.AddrPortFrom(ip, upstream.Port)}, nil
 		},
 	})
 	if err != nil {
@@ -328,7 +419,8 @@ func TestVerifC07Controller(t *testing.T) {
 	originalFactory := dnsForwarderFactory
 	defer func() { dnsForwarderFactory = originalFactory }()
 	dnsForwarderFactory = func(upstream *componentdns.Upstream, dialArg dialArgument, _ *logrus.Logger) (DnsForwarder, error) {
-		return &c07Fwd{up: c07UpOfHost(upstream.Hostname)}, nil
+		stats.Inc("forwarder.created")
+		return &c07Fwd{up: c07Ident(upstream.String())}, nil // identity bound NOW, not when called
 	}
 
 	nCfg, perCfg, maxRules := 300, 12, 5
@@ -350,15 +442,25 @@ func TestVerifC07Controller(t *testing.T) {
 		}
 		reqFb := c07Out(r, nUp, false)
 		respFb := c07Out(r, nUp, true)
-		text := c07ConfigText(nUp, reqRules, reqFb, respRules, respFb)
+		urls := c07GenUpstreams(r, nUp, stats)
+		text := c07ConfigText(nUp, urls, reqRules, reqFb, respRules, respFb)
 		dnsCfg, err := c07ParseConfig(text)
 		if err != nil {
 			t.Fatalf("generated config does not parse: %v\n%s", err, text)
 		}
-		cfgOp := fmt.Sprintf("cfg %d %s %s %s %s", nUp, reqFb, c07RenderOp(reqRules), respFb, c07RenderOp(respRules))
+		// the last definition is a phantom upstream that is NOT configured (cache scope of a stranger)
+		defs, err := c07MakeUpDefs(append(append([]string{}, urls...), "udp://10.0.0.250:53"))
+		if err != nil {
+			t.Fatalf("upstream definitions: %v", err)
+		}
+		c07Ups = defs
+		cfgOp := fmt.Sprintf("cfg %d %s %s %s %s urls:%s", nUp, reqFb, c07RenderOp(reqRules), respFb, c07RenderOp(respRules),
+			strings.Join(urls, ","))
 		routing, err := componentdns.New(dnsCfg, &componentdns.NewOption{
-			Logger:                c07Quiet(),
-			UpstreamReadyCallback: func(*componentdns.Upstream) error { return nil },
+			Logger:                  c07Quiet(),
+			UpstreamReadyCallback:   func(*componentdns.Upstream) error { return nil },
+			UpstreamResolverNetwork: "udp",
+			UpstreamHostResolver:    c07ResolveHost,
 		})
 		if err != nil {
 			if strings.Contains(err.Error(), "too many routing rules") {
@@ -373,6 +475,10 @@ func TestVerifC07Controller(t *testing.T) {
 		if ci < 2 {
 			stats.Sample(cfgOp)
 		}
+		// ONE controller per scenario: its forwarder cache lives across the asks, so which cached
+		// forwarder carries a query depends on the forwarder cache key.  The response cache is
+		// emptied between asks (each ask line is self-contained for the model).
+		ctrl := c07NewController(t, routing)
 
 		names := c07Names(r, reqRules, perCfg, stats)
 		for ai := 0; ai < perCfg; ai++ {
@@ -411,7 +517,6 @@ func TestVerifC07Controller(t *testing.T) {
 				}
 			}
 
-			ctrl := c07NewController(t, routing)
 			c07Current = cur
 
 			// seed the response cache through the production insert path
@@ -437,8 +542,7 @@ func TestVerifC07Controller(t *testing.T) {
 					} else {
 						k := r.Intn(nUp + 1)
 						scTok = fmt.Sprintf("u%d", k)
-						up := &componentdns.Upstream{Scheme: "udp", Hostname: fmt.Sprintf("10.0.0.%d", k+1), Port: 53}
-						key = ctrl.responseCacheKey(baseKey, nil, consts.DnsRequestOutboundIndex(k), up)
+						key = ctrl.responseCacheKey(baseKey, nil, consts.DnsRequestOutboundIndex(k), c07Ups[k].up)
 					}
 					recs := c07GenAns(r, stats).recs
 					if err := ctrl.UpdateDnsCacheTtlWithKey(key, sname, sqt, c07RRs(sname, recs), nil, nil, 300); err != nil {
@@ -510,8 +614,14 @@ func TestVerifC07Controller(t *testing.T) {
 			if ci < 2 && ai < 2 {
 				stats.Sample(op)
 			}
-			_ = ctrl.Close()
+			// empty the response cache for the next ask (forwarders stay cached)
+			var keys []string
+			ctrl.dnsCache.Range(func(k, _ any) bool { keys = append(keys, k.(string)); return true })
+			for _, k := range keys {
+				ctrl.RemoveDnsRespCache(k)
+			}
 		}
+		_ = ctrl.Close()
 	}
 	stats.Write("c07c")
 }
